@@ -113,6 +113,11 @@ def templates(tier, seed):
                     continue
                 for mg in MARGINS:
                     tds.append(dict(fam="inside", cont=cont, refs=list(refs), mg=mg, order="after"))
+    for cont in ("rect", "circle", "ellipse"):
+        triples = list(itertools.product(IK, repeat=3)) if cont == "rect" else [("rect", "rect", "rect")]
+        for refs in triples:
+            for mg in ("none", "a1", "a4", "p25"):
+                tds.append(dict(fam="inside", cont=cont, refs=list(refs), mg=mg, order="after"))
     tds.append(dict(fam="both", cont="rect", refs=["rect"], mg="none", order="after"))
     return tds
 
